@@ -5,6 +5,43 @@ Line-protocol driver shared by C01 / C09 / C02 (op grammar: harness/hx-c01/src/l
 The three properties observe different things of the same run:
 C01 the values returned by reads, C09 how often each body ran, C02 what each effect
 run read, the ready list, and whether effects are up to date at idle points.
+
+Ops that exist for the implementation's API surface only and are desugared HERE into the constructs
+of `Model/Reactive.lean` (the model and its theorems are untouched):
+
+* `acc <n>` — which accessor (`get` / `with` / `read` / `get_untracked` / `with_untracked` /
+  `read_untracked` / `try_get_untracked`, `set` / `update` / `write` / `try_set`), which memo constructor
+  (`new` / `new_owning` / `new_with_compare(_, !=)`) and which signal family (`RwSignal` or the
+  `ReadSignal`/`WriteSignal` pair) each site uses: all of them are the same `rd` / `wr` / `memo` / `sig`
+  of the model.  Echo `ok`.
+* `memoc <k> <expr>` — a memo built with the coarse comparator `a.div_euclid(k) != b.div_euclid(k)`.
+  A comparator is seen by the memo's SUBSCRIBERS only (it decides whether they are marked dirty and what
+  `update_if_necessary` reports to them); the stored value is always the freshly computed one and the
+  memo's own runs are triggered by its sources only.  The driver therefore admits `memoc` nodes as
+  LEAVES only (a later def that reads one is `bad-op`, on both sides) and maps a leaf `memoc k e` to the
+  model's `memo e`: with no subscriber the two are observationally identical for reads (C01), run counts
+  (C09: the `changed` flag of a node without subscribers reaches nobody) and wake-ups (C02).
+* `sel <K> <expr>` — `reactive_graph::computed::Selector::new(move || expr)`: K+1 consecutive node ids, the
+  key nodes 0..K-1 and the selector node.  selector.rs: a `RenderEffect::new_isomorphic` stores
+  `v = source()` and, when `v` changed, notifies the per-key trigger (an `ArcRwSignal<bool>` that is only
+  ever tracked and notified) of the old and of the new key; `selected(k)` tracks key k's trigger and
+  answers `k == v`.  Desugaring: key node j is a `sig` node `t_j` holding `(j == v)` as 0/1 (reading it =
+  `track` + value, exactly `selected(&j) as i64`), the selector node is a render effect (`reff`) with body
+  `seq step_0 (… (seq step_{K-1} expr))`, `step_j = ite (flag_j(expr) - U t_j) (wr t_j (ite (U t_j) 0 1)) 0`,
+  `flag_j(e) = ite (e - j) 0 1`: it writes (= notifies, `setSignal`) exactly the keys whose flag flips, i.e.
+  the old and the new key; a trigger nobody subscribed to is written without effect.  All `t_j` start at 0; the
+  creation run (render effects run at creation) sets the initially selected one.
+  `expr` has no binder in the model's `Expr`, so the body evaluates it K+1 times; nothing the body writes is
+  read by `expr` (`t_j` are above every id `expr` reads) and memos read by `expr` are clean after its first
+  evaluation, so the K+1 evaluations read the same values and run nothing again.  Two observables are printed
+  in a canonical form that hides what differs: `eruns=` shows a selector run's tracked reads once (the
+  first 1/(K+1) of the `rdv` events of that run); in `woke=` the wake-ups made by one selector run's key writes
+  are sorted (the real code walks a hash map of keys: the order between the old key's and the new key's readers
+  is unspecified; the order among the readers of ONE key is the subscription order on both sides and is kept by
+  the sort only up to node id, which the harness-side wake-order oracle does not rely on).
+  Not admitted: `set` / `wr` on a key node, `pause` / `resume` / `dispose` on a selector node, reading a
+  selector node (all `bad-op`); `pauseall` / `resumeall` reach the selector like every effect.
+  The selector body's `U t_j` reads are not counted as untracked reads of the program (`untrackedFreeD`).
 -/
 namespace Leptos.Reactive
 open Leptos.Wire
@@ -17,6 +54,12 @@ structure DState where
   /-- (effect, its run count when it was last paused): an effect that has not run since it was paused is
   excused from the convergence oracle (changes made during a pause are documented as not replayed) -/
   pausedAt : List (Nat × Nat) := []
+  /-- memoc nodes (leaves) -/
+  leaves : List Nat := []
+  /-- key nodes of selectors (`sig` nodes of the desugaring) -/
+  keys : List Nat := []
+  /-- (selector node, number of keys, source expression) -/
+  sels : List (Nat × Nat × Expr) := []
 
 def parseInt (t : String) : Option Int :=
   if t.startsWith "-" then (t.drop 1).toNat?.map fun n => -(Int.ofNat n) else t.toNat?.map Int.ofNat
@@ -68,6 +111,42 @@ def parseBody (toks : List String) : Option Expr :=
 
 def showIds (l : List Nat) : String := natList l
 
+/-- does the expression read (tracked or not) a node of `l`? -/
+def Expr.readsAny (l : List Nat) : Expr → Bool
+  | .lit _ => false
+  | .rd _ id => l.contains id
+  | .add a b => a.readsAny l || b.readsAny l
+  | .mulc _ a => a.readsAny l
+  | .ite c t e => c.readsAny l || t.readsAny l || e.readsAny l
+  | .seq a b => a.readsAny l || b.readsAny l
+  | .wr _ a => a.readsAny l
+
+def Expr.writesAny (l : List Nat) : Expr → Bool
+  | .lit _ => false
+  | .rd _ _ => false
+  | .add a b => a.writesAny l || b.writesAny l
+  | .mulc _ a => a.writesAny l
+  | .ite c t e => c.writesAny l || t.writesAny l || e.writesAny l
+  | .seq a b => a.writesAny l || b.writesAny l
+  | .wr id a => l.contains id || a.writesAny l
+
+/-- `flag_j(e)`: 1 if `e = j`, else 0 -/
+def selFlag (e : Expr) (j : Nat) : Expr := .ite (.add e (.lit (-(Int.ofNat j)))) (.lit 0) (.lit 1)
+
+/-- flip key node `t` (key j) when its flag differs from `flag_j(e)` -/
+def selStep (e : Expr) (t j : Nat) : Expr :=
+  .ite (.add (selFlag e j) (.mulc (-1) (.rd false t))) (.wr t (.ite (.rd false t) (.lit 0) (.lit 1))) (.lit 0)
+
+/-- body of the render effect a selector desugars to -/
+def selBody (e : Expr) (first k : Nat) : Expr :=
+  (List.range k).foldr (fun j acc => .seq (selStep e (first + j) j) acc) e
+
+def insertSorted (x : Nat) : List Nat → List Nat
+  | [] => [x]
+  | y :: ys => if x ≤ y then x :: y :: ys else y :: insertSorted x ys
+
+def sortNat (l : List Nat) : List Nat := l.foldr insertSorted []
+
 /-- `Current(id)`: the last run of `id` saw exactly the values its tracked inputs have now -/
 def current : Nat → State → Nat → Bool
   | 0, _, _ => false
@@ -84,6 +163,13 @@ def current : Nat → State → Nat → Bool
 def untrackedFree (p : Prog) : Bool :=
   p.all fun d => match d with | .sig _ => true | .memo b => b.noUntracked | .eff b => b.noUntracked
 
+/-- as `untrackedFree`, a selector node counting with its source expression (not with the desugared body) -/
+def untrackedFreeD (p : Prog) (sels : List (Nat × Nat × Expr)) : Bool :=
+  (List.range p.length).all fun i =>
+    match sels.find? (fun (x : Nat × Nat × Expr) => x.1 == i) with
+    | some (_, _, src) => src.noUntracked
+    | none => match p[i]? with | some (.memo b) => b.noUntracked | some (.eff b) => b.noUntracked | _ => true
+
 def countRuns (log : List Ev) (n : Nat) : List (Nat × Nat) :=
   (List.range n).filterMap fun i =>
     let c := (log.filter fun e => e == .ran i).length
@@ -93,7 +179,7 @@ def firstUnjust (log : List Ev) : Option Nat :=
   log.findSome? fun e => match e with | .unjust i => some i | _ => none
 
 /-- effect runs of one op: `e:v1,v2;e:v…` from the ghost log -/
-def effectRuns (p : Prog) (log : List Ev) : String :=
+def effectRuns (p : Prog) (sels : List (Nat × Nat × Expr)) (log : List Ev) : String :=
   let isEff (i : Nat) : Bool := match p[i]? with | some (.eff _) => true | _ => false
   -- fold: current list of (effect, reads) in order
   let runs : List (Nat × List Int) := log.foldl (fun acc e =>
@@ -106,6 +192,11 @@ def effectRuns (p : Prog) (log : List Ev) : String :=
         | [] => acc
       else acc
     | _ => acc) []
+  -- a selector run evaluates its source K+1 times with the same reads: show them once
+  let runs : List (Nat × List Int) := runs.map fun ((i, vs) : Nat × List Int) =>
+    match sels.find? (fun (x : Nat × Nat × Expr) => x.1 == i) with
+    | some (_, k, _) => (i, vs.take (vs.length / (k + 1)))
+    | none => (i, vs)
   ";".intercalate (runs.map fun (i, vs) => s!"{i}:" ++ ",".intercalate (vs.map toString))
 
 /-- does node `x` (by the tracked reads of its last run) depend on signal `sig`? -/
@@ -114,11 +205,20 @@ def dependsOn : Nat → State → Nat → Nat → Bool
   | f + 1, s, x, sig =>
     x == sig || ((s.get x).kind != .sig && (s.get x).seen.any fun (y, _, _) => dependsOn f s y sig)
 
-def wokeList (log : List Ev) : List Nat :=
-  log.filterMap fun e => match e with | .woke i => some i | _ => none
+/-- wake-ups in order; those made by the key writes of one selector run (a maximal stretch of the log that
+starts at a write of a key node and contains no `ran` and no write of another signal) are sorted -/
+def wokeList (keys : List Nat) (log : List Ev) : List Nat :=
+  let (out, seg, _) := log.foldl (fun (acc : List Nat × List Nat × Bool) e =>
+    let (out, seg, open_) := acc
+    match e with
+    | .woke i => if open_ then (out, seg ++ [i], open_) else (out ++ [i], seg, open_)
+    | .set x => if keys.contains x then (out, seg, true) else (out ++ sortNat seg, [], false)
+    | .ran _ => (out ++ sortNat seg, [], false)
+    | _ => acc) ([], [], false)
+  out ++ sortNat seg
 
-def idleVerdict (p : Prog) (s : State) (pausedAt : List (Nat × Nat)) : Option String :=
-  if !(ready s).isEmpty || !untrackedFree p then none else
+def idleVerdict (p : Prog) (sels : List (Nat × Nat × Expr)) (s : State) (pausedAt : List (Nat × Nat)) : Option String :=
+  if !(ready s).isEmpty || !untrackedFreeD p sels then none else
   -- disposed effects need not be current; effects that are or were paused are excused (changes made
   -- during a pause are documented as not replayed) — the driver tracks that in `everPaused` = `first` reuse is avoided:
   let effs := (List.range p.length).filter fun i =>
@@ -130,7 +230,8 @@ def idleVerdict (p : Prog) (s : State) (pausedAt : List (Nat × Nat)) : Option S
     else if n.seen.any (fun (x, v, _) => specVal p s x != v) then
       -- an effect whose own body writes a signal is a feedback loop when the write reaches something it read
       -- (class of F-C02-2); a read-only effect that is stale is the plain class
-      if (bodyOf p e).noWrite then some "fail stale-effect" else some "fail self-feedback-stale"
+      -- (a selector's key writes are not read by its source: never a feedback loop)
+      if (bodyOf p e).noWrite || sels.any (fun (x : Nat × Nat × Expr) => x.1 == e) then some "fail stale-effect" else some "fail self-feedback-stale"
     else none
   some (bad.getD "ok")
 
@@ -142,7 +243,7 @@ def afterOp (m : Mode) (d : DState) (read : Option (Nat × Int)) : String :=
     | some (id, v) =>
       let verdict :=
         if !current (fuelFor d.prog) s id then "fail not-current"
-        else if untrackedFree d.prog && v != specVal d.prog s id then "fail not-scratch"
+        else if untrackedFreeD d.prog d.sels && v != specVal d.prog s id then "fail not-scratch"
         else "ok"
       s!"{v} ## {verdict}"
     | none => "ok"
@@ -153,8 +254,8 @@ def afterOp (m : Mode) (d : DState) (read : Option (Nat × Int)) : String :=
       | none => "ok"
     "runs=" ++ ",".intercalate (runs.map fun (i, c) => s!"{i}:{c}") ++ " ## " ++ verdict
   | .c02 =>
-    let base := "eruns=" ++ effectRuns d.prog s.log ++ " woke=" ++ showIds (wokeList s.log) ++ " ready=" ++ showIds (ready s)
-    match idleVerdict d.prog s d.pausedAt with
+    let base := "eruns=" ++ effectRuns d.prog d.sels s.log ++ " woke=" ++ showIds (wokeList d.keys s.log) ++ " ready=" ++ showIds (ready s)
+    match idleVerdict d.prog d.sels s d.pausedAt with
     | some v => base ++ " ## " ++ v
     | none => base
 
@@ -167,11 +268,42 @@ def normKw (ws : List String) : List String :=
   | kw :: rest => if kw == "seff" || kw == "ieff" || kw == "weff" || kw == "wieff" then "eff" :: rest else ws
   | [] => []
 
+/-- a new body may not read a memoc leaf and may not write a key node -/
+def okBody (d : DState) (b : Expr) : Bool := !b.readsAny d.leaves && !b.writesAny d.keys
+
 def stepLine (m : Mode) (d : DState) (line : String) : DState × String :=
   match normKw (words line) with
   | ["case", n] => ({}, s!"case {n}")
   | ["mode", _] => (d, "ok")
   | ["wrap", _] => (d, "ok")   -- reads go through Signal::from / Signal::derive: transparent for the model
+  | ["acc", n] => (d, if n.toNat?.isSome then "ok" else "bad-op")   -- accessor / constructor variety: transparent
+  | "memoc" :: k :: toks =>
+    match parseInt k, parseBody toks with
+    | some k, some b =>
+      if 2 ≤ k && k ≤ 9 && wfNode d.prog d.prog.length (.memo b) && okBody d b then
+        let d := { d with leaves := d.leaves ++ [d.prog.length] }
+        let d := { d with prog := d.prog ++ [.memo b], s := { d.s with nodes := d.s.nodes ++ [initNode (.memo b)] } }
+        (d, if m == .c02 then "ok ready=" ++ showIds (ready d.s) else "ok")
+      else (d, "bad-op")
+    | _, _ => (d, "bad-op")
+  | "sel" :: k :: toks =>
+    match k.toNat?, parseBody toks with
+    | some k, some src =>
+      let first := d.prog.length
+      if 1 ≤ k && k ≤ 8 && wfNode d.prog first (.memo src) && okBody d src then
+        let node := first + k
+        let keyDefs := List.replicate k (NodeDef.sig 0)
+        let body := selBody src first k
+        let d := { d with
+          prog := d.prog ++ keyDefs ++ [.eff body],
+          s := { d.s with nodes := d.s.nodes ++ keyDefs.map initNode ++ [initNode (.eff body)] },
+          keys := d.keys ++ (List.range k).map (first + ·),
+          sels := d.sels ++ [(node, k, src)] }
+        let d := clearLog d
+        let d := { d with s := initRenderEffect d.prog d.s node }
+        (d, if m == .c02 then "ok " ++ afterOp m d none else if m == .c09 then afterOp m d none else "ok")
+      else (d, "bad-op")
+    | _, _ => (d, "bad-op")
   | [op] =>
     if op == "pauseall" || op == "resumeall" then
       -- `Owner::pause` / `resume` on the root owner reaches every effect's owner
@@ -199,7 +331,7 @@ def stepLine (m : Mode) (d : DState) (line : String) : DState × String :=
   | "memo" :: toks =>
     match parseBody toks with
     | some b =>
-      if wfNode d.prog d.prog.length (.memo b) then
+      if wfNode d.prog d.prog.length (.memo b) && okBody d b then
         let d := { d with prog := d.prog ++ [.memo b], s := { d.s with nodes := d.s.nodes ++ [initNode (.memo b)] } }
         (d, if m == .c02 then "ok ready=" ++ showIds (ready d.s) else "ok")
       else (d, "bad-op")
@@ -207,7 +339,7 @@ def stepLine (m : Mode) (d : DState) (line : String) : DState × String :=
   | "eff" :: toks =>
     match parseBody toks with
     | some b =>
-      if wfNode d.prog d.prog.length (.eff b) then
+      if wfNode d.prog d.prog.length (.eff b) && okBody d b then
         let d := { d with prog := d.prog ++ [.eff b], s := { d.s with nodes := d.s.nodes ++ [initNode (.eff b)] } }
         (d, if m == .c02 then "ok ready=" ++ showIds (ready d.s) else "ok")
       else (d, "bad-op")
@@ -215,7 +347,7 @@ def stepLine (m : Mode) (d : DState) (line : String) : DState × String :=
   | "reff" :: toks =>
     match parseBody toks with
     | some b =>
-      if wfNode d.prog d.prog.length (.eff b) then
+      if wfNode d.prog d.prog.length (.eff b) && okBody d b then
         let e := d.prog.length
         let d := { d with prog := d.prog ++ [.eff b], s := { d.s with nodes := d.s.nodes ++ [initNode (.eff b)] } }
         let d := clearLog d
@@ -226,7 +358,7 @@ def stepLine (m : Mode) (d : DState) (line : String) : DState × String :=
   | ["set", id, v] =>
     match id.toNat?, parseInt v with
     | some id, some v =>
-      match d.prog[id]? with
+      match (if d.keys.contains id then none else d.prog[id]?) with
       | some (.sig _) =>
         let d := clearLog d
         -- the pause excuse covers only changes made during the pause
@@ -260,7 +392,7 @@ def stepLine (m : Mode) (d : DState) (line : String) : DState × String :=
     if op == "pause" || op == "resume" || op == "dispose" then
       match e.toNat? with
       | some e =>
-        match d.prog[e]? with
+        match (if d.sels.any (fun (x : Nat × Nat × Expr) => x.1 == e) then none else d.prog[e]?) with
         | some (.eff _) =>
           let d := clearLog d
           let o : Op := if op == "pause" then .pause e else if op == "resume" then .resume e else .dispose e
